@@ -45,12 +45,13 @@ func (ip *indexPersist) prepare(start int) func() error {
 		ip.p.Lock()
 		defer ip.p.Unlock()
 
-		err := ip.p.Truncate(int64(lenOfPointers) * pointerByteSize)
-		if err != nil {
+		// Write the pointers before adjusting the file length. Growing the file with
+		// Truncate first would leave zero-valued pointers at the tail if the process
+		// dies before the write, and the channel could no longer be read.
+		if _, err := ip.p.WriteAt(pointerEncoded, int64(start*pointerByteSize)); err != nil {
 			return err
 		}
-		_, err = ip.p.WriteAt(pointerEncoded, int64(start*pointerByteSize))
-		return err
+		return ip.p.Truncate(int64(lenOfPointers) * pointerByteSize)
 	}
 }
 
